@@ -1,5 +1,5 @@
 (* C16 — Join implements inner / left / right / outer relational joins on key fields. *)
-From Connectome Require Import Values NameSet MiscGen Relational RelFacts.
+From Connectome Require Import Values NameSet JoinGen RelBase JoinMapGen SortFacts JoinFacts.
 From Coq Require Import Sorting.Sorted.
 Local Open Scope list_scope.
 
